@@ -159,3 +159,59 @@ func (c Ctx) Count() int {
 	}
 	return n * len(c.Heads)
 }
+
+// ---------------------------------------------------------------- An+B grid
+
+// NthForms: every production of the <an+b> grammar (and the spellings the
+// implementation is known to accept), as the list of its tokens.
+var NthForms = [][]string{
+	{"even"}, {"odd"}, {"EVEN"}, {"Odd"},
+	{"n"}, {"-n"}, {"+n"}, {"N"}, {"2n"}, {"-2n"}, {"+2n"}, {"5"}, {"+5"}, {"-5"}, {"0"},
+	{"n", "+3"}, {"n", "-3"}, {"n-3"}, {"n-", "3"}, {"n", "+", "3"}, {"n", "-", "3"},
+	{"-n", "+3"}, {"-n-3"}, {"-n-", "3"}, {"+n", "+", "3"}, {"+n-3"},
+	{"2n", "+1"}, {"2n-1"}, {"2n-", "1"}, {"2n", "+", "1"}, {"2n", "-", "1"}, {"2n", "-1"}, {"-2n-3"},
+	{"+", "n"}, {"+", "n", "+", "1"}, {"+", "n-1"}, {"+", "n-", "1"},
+}
+
+// NthExtras: one token of every kind the grammar never allows next to an
+// <an+b> (identifier, keyword of the grammar itself, number, dimension,
+// percentage, delimiters, blocks, function, string, hash, at-keyword) plus a
+// comment (which it does allow).
+var NthExtras = []string{"x", "n", "even", "of", "1", "+1", "-1", "1.5", "2n", "50%", ";", ",", "+", "-", "*", "!", ":", "()", "[]", "{}", "f()", "'a'", "#a", "@a", "/**/", "\\6e "}
+
+// NthGrid emits, for EVERY form, the form itself and the form with one extra
+// token placed at every token boundary (before, between, after), the tokens
+// being joined by a space, by nothing, and (trailing position) by a comment.
+// With full = false only the leading and trailing positions are produced.
+func NthGrid(full bool, emit func(string)) {
+	join := func(p []string, sep string) string {
+		s := ""
+		for i, x := range p {
+			if i > 0 {
+				s += sep
+			}
+			s += x
+		}
+		return s
+	}
+	for _, f := range NthForms {
+		for _, sep := range []string{" ", ""} {
+			emit(join(f, sep))
+			emit(" " + join(f, sep) + " ")
+		}
+		for pos := 0; pos <= len(f); pos++ {
+			if !full && pos != 0 && pos != len(f) {
+				continue
+			}
+			for _, x := range NthExtras {
+				p := append(append(append([]string{}, f[:pos]...), x), f[pos:]...)
+				emit(join(p, " "))
+				emit(join(p, ""))
+				if pos == len(f) {
+					emit(join(f, "") + "/**/" + x)
+					emit(join(f, " ") + " " + x + " ")
+				}
+			}
+		}
+	}
+}
